@@ -378,17 +378,27 @@ func (gopt *GetOpt) Parse(args []string) ([]string, error) {
 		}
 	}
 
-	for _, option := range node.UnknownOptions {
-		// Check for unknown mode at the node that we want to validate
-		switch gopt.finalNode.unknownMode {
-		case Fail:
-			return nil, fmt.Errorf(text.MessageOnUnknown, option.Name)
-		case Warn:
-			fmt.Fprintf(Writer, text.WarningOnUnknown+"\n", option.Name)
+	// Arguments and unknown options given before a command name are handled at
+	// the level they were given at, in command line order.
+	levels := []*programTree{}
+	for n := node; n != nil; n = n.Parent {
+		levels = append([]*programTree{n}, levels...)
+	}
+	var remaining []string
+	for _, n := range levels {
+		for _, option := range n.UnknownOptions {
+			// Check for unknown mode at the node the option was given at
+			switch n.unknownMode {
+			case Fail:
+				return nil, fmt.Errorf(text.MessageOnUnknown, option.Name)
+			case Warn:
+				fmt.Fprintf(Writer, text.WarningOnUnknown+"\n", option.Name)
+			}
 		}
+		remaining = append(remaining, n.ChildText...)
 	}
 
-	return node.ChildText, nil
+	return remaining, nil
 }
 
 // Dispatch - Handles calling commands and subcommands after the call to Parse.
